@@ -411,6 +411,17 @@ def legs(tier):
                  'DiskCache / ReadOnlyStorage(DiskCache) was created over a populated directory with %d ballast directories '
                  '(scan takes tens of ms; the other lookups arrive 3 ms after the first), then the same lookups sequentially; '
                  'model run under a PRNG schedule + scan length, answers are schedule-independent' % BALLAST),
+        # the same two legs with a logger installed at Trace in the harness process (VERIF_LOG=trace): the arguments
+        # of every trace!()/debug!() on the storage paths are then evaluated.  Until the harness crate depends on `log`
+        # (see the report / /tmp/strengthen/C15-harness-log.diff) the variable is ignored and these legs repeat ro/conc.
+        Leg('ro_trace', lambda rng, tier: gen_exhaustive(2) + gen_random(rng, 600 if tier == 'thorough' else 150, 20),
+            monitor=ro_monitor, nontrivial=ro_nontrivial, shrink=ro_shrink, stats=ro_stats, compare=ro_compare,
+            model_leg='ro', impl_args=['ro'], impl_env={'VERIF_LOG': 'trace'},
+            rule='leg ro (depth<=2 exhaustive + PRNG histories) with the log level of the configuration at trace; every storage '
+                 'call under a 5 s no-answer timeout reported as `hung`'),
+        Leg('conc_trace', lambda rng, tier: gen_conc(rng, 12 if tier == 'thorough' else 6), monitor=conc_monitor,
+            stats=conc_stats, shrink=conc_shrink, shards=4, model_leg='conc', impl_args=['conc'],
+            impl_env={'VERIF_LOG': 'trace'}, rule='leg conc with the log level at trace'),
         Leg('config', lambda rng, tier: gen_config(), monitor=config_monitor, stats=config_stats,
             rule='EXHAUSTIVE: 62 file settings (no file, no section, [cache.disk] with dir/size/rw_mode/preprocessor sub-table '
                  'variants) x 160 environments (each of the 4 variables unset / valid values / invalid value)'),
